@@ -5,13 +5,16 @@ import RpmVerif.Spec.FileCaps
   `caps T`     – `FileCaps::from_str`, `FileCaps::new`, `Display`, `FileOptions::new(..).caps(T)`
   `capspkg T`  – `FileOptions::caps(T)` carried through `PackageBuilder::build` and read back from the
                  file entry (`FileEntry::caps`, then `Display`)
-Observation: `ok <hex of the displayed text>` | `err` | `panic` (anything else = the entry points differ).
-The verdict is the spec's `demand` judged on the implementation's observation; "no panic" and
-"accepted text is verbatim" are judged in every region, including don't-care and non-ASCII. -/
+The argument is decoded as UTF-8 into code points (the harness only sends Rust `String`s; a request
+that is not valid UTF-8 is a bad request).  Model and spec cover every text, ASCII or not.
+Observation: `ok <hex of the UTF-8 bytes of the displayed text>` | `err` | `panic` (anything else = the
+entry points differ).  The verdict is the spec's `demand` judged on the implementation's observation;
+"no panic" and "accepted text is verbatim" are judged in every region, including don't-care. -/
 namespace RpmVerif.Driver.C19
 open RpmVerif RpmVerif.Driver RpmVerif.FileCaps
 
-def obsOf (bs : List Nat) : String := "ok " ++ hexOrDash (bs.map Nat.toUInt8)
+/-- `ok` + hex of the UTF-8 encoding of the code points -/
+def obsOf (cs : List Nat) : String := "ok " ++ hexOfString (stringOfCodePoints cs)
 
 /-- the model's observation: all entry points, reported singly when they differ -/
 def modelObs (s : Str) : String :=
@@ -27,13 +30,20 @@ def errClass (s : Str) : String :=
   match validateCapsText s with
   | .err c => c | .ok _ => "accepted" | .panic _ => "panic"
 
+/-- where the text has non-ASCII code points (histogram label only): in the name list of a clause
+(before its first operator), elsewhere in a clause, as `White_Space` separators, or nowhere -/
+def nonAsciiWhere (s : Str) : String :=
+  let ws := Spec.words s
+  if ws.any (fun w => (w.takeWhile (fun c => !Spec.isOp c)).any (· ≥ 128)) then "nonascii-name"
+  else if ws.any (fun w => w.any (· ≥ 128)) then "nonascii-suffix"
+  else if s.any Spec.isUniSpace then "unicode-ws"
+  else ""
+
 def handle (op : String) (args : List String) (impl : String) : String :=
   match op, args with
   | _, [h] =>
-    match bytesOfHex h with
-    | none => badReq "hex"
-    | some bs =>
-      let s := natsOfBytes bs
+    match bytesOfHex h, codePointsOfHex h with
+    | some bs, some s =>
       let verbatim := "ok " ++ hexOrDash bs
       -- demands that hold for every input, whatever the grammar says
       let always : Option String :=
@@ -41,20 +51,20 @@ def handle (op : String) (args : List String) (impl : String) : String :=
         else if impl == "err" || impl == verbatim then none
         else if impl.startsWith "ok " then some "fails:not-verbatim"
         else some "fails:entry-points-differ"
-      if s.any (· ≥ 128) then
-        -- out of the model and of the grammar (Unicode upper-casing / whitespace): no accept/reject demand
-        answer "*" (always.getD "dontcare") "non-ascii"
-      else
-        let m := modelObs s
-        match Spec.demand s with
-        | .mustAccept =>
-          let v := always.getD (if impl == verbatim then "holds" else "fails:rejected-wellformed")
-          answer m v s!"accept-{min (Spec.words s).length 3}cl"
-        | .mustReject =>
-          let v := always.getD (if impl == "err" then "holds" else "fails:accepted-malformed")
-          answer m v ("reject-" ++ errClass s)
-        | .dontcare =>
-          answer m (always.getD "dontcare") ("dc-" ++ Spec.dontcareWhy s)
+      let m := modelObs s
+      let na := nonAsciiWhere s
+      match Spec.demand s with
+      | .mustAccept =>
+        let v := always.getD (if impl == verbatim then "holds" else "fails:rejected-wellformed")
+        answer m v s!"accept-{min (Spec.words s).length 3}cl"
+      | .mustReject =>
+        let v := always.getD (if impl == "err" then "holds" else "fails:accepted-malformed")
+        let cls := errClass s
+        -- all-whitespace text is the trivial branch `reject-empty`, whatever kind of whitespace
+        answer m v (if cls == "empty" || na == "" then "reject-" ++ cls else s!"reject-{na}-{cls}")
+      | .dontcare =>
+        answer m (always.getD "dontcare") ("dc-" ++ Spec.dontcareWhy s)
+    | _, _ => badReq "hex"
   | _, _ => badReq "args"
 
 def ops : List String := ["caps", "capspkg"]
